@@ -25,9 +25,9 @@ Theorem unwrap_present : forall a g span r v, a_ops a = r ++ [v] -> v <> VNil ->
   exec_d (DUnwrap span) a g = SNext a g.
 Proof. intros a g span r v H Hv Hs. cbn [exec_d]. rewrite H, unsnoc_snoc. destruct v; try reflexivity; [contradiction|exfalso; eapply Hs; reflexivity]. Qed.
 
-(* `a ?= e`: the value is bound to a (nil included) and the presence flag is pushed *)
+(* `a ?= e`: the value is stored into a exactly as `a = ...` would (nil included) and the presence flag is pushed *)
 Theorem unwrap_into_flag : forall a g n r v g', a_ops a = r ++ [v] -> (forall w, v <> VSome w) ->
-  bind_local g n v = Some g' ->
+  store_var g n v = Some g' ->
   exec_d (DUnwrapInto n) a g = SNext (set_ops a (r ++ [VBool (match v with VNil => false | _ => true end)])) g'.
 Proof.
   intros a g n r v g' H Hs Hb. cbn [exec_d]. rewrite H, unsnoc_snoc.
